@@ -3,6 +3,7 @@
   `subJudge` accepts the model's trace on every event sequence without `abort aio 0`.
 -/
 import NngModel.Proofs.SubSim
+import NngModel.Generated.C05
 namespace Nng.Sub
 open Nng Nng.Proto Nng.PubSubSpec
 
